@@ -179,6 +179,8 @@ pub fn default_sched(rng: &mut Prng, faulty: bool) -> SchedCfg {
 /// number of open descriptors of this process (leak audit between runs)
 pub fn open_fds() -> Vec<i32> {
     let mut v: Vec<i32> = std::fs::read_dir("/proc/self/fd").map(|d| d.filter_map(|e| e.ok()?.file_name().to_str()?.parse().ok()).collect()).unwrap_or_default();
+    // the directory handle used for the listing shows up in it: keep only descriptors that still exist
+    v.retain(|fd| crate::sys::fcntl(*fd, libc::F_GETFD, 0).is_ok());
     v.sort();
     v
 }
